@@ -77,4 +77,36 @@ static inline MTBDD build(const Tab& t, Val dflt = 0, unsigned order = 0) {
 
 // decode by evaluation on every total assignment
 static inline Tab decode(const MTBDD& f) { Tab r; for (unsigned a = 0; a < NA; ++a) r.v[a] = f.GetValue(totalAsgn(a)); return r; }
+
+// a drawn operand: its table (the reference semantics), its default value and how it is built.  Sources: 'T' any table
+// (assembled from minterm diagrams, default 0), 'C' cube with don't-care positions (value on the cube, 0 elsewhere),
+// 'D' cube with a drawn default value, 'K' constant diagram
+struct Fun {
+  char src; Tab t; Val dflt; Cube c; Val value;
+  void draw(char s) {
+    src = s; dflt = 0;
+    if (s == 'T') t.draw();
+    else if (s == 'C' || s == 'D') { c.draw(); value = vs_range(NVAL); if (s == 'D') dflt = vs_range(NVAL); t = c.tab(value, dflt); }
+    else { value = vs_range(NVAL); t.fill(value); dflt = value; }
+  }
+  MTBDD make(unsigned order = 0) const { return src == 'T' ? build(t, 0, order) : src == 'K' ? MTBDD(value) : MTBDD(c.asgn(), value, dflt); }
+};
+static inline void sameFunction(const MTBDD& m, const Tab& t, int id) { Tab d = decode(m); for (unsigned a = 0; a < NA; ++a) CHECK(d.v[a] == t.v[a], id); }
+
+// Reference semantics of Project on function tables.  op idempotent, commutative, associative: the value is op over all
+// values of the removed variables.  In general (documented node-wise meaning on the reduced diagram): the two cofactors
+// of a removed variable are combined exactly where the function depends on that variable.  tt: table over the k lowest
+// variables; removed: bit i set = variable i is projected out; out has the same layout as tt.
+template <class Op> static void projectRef(const Val* tt, unsigned k, unsigned removed, Op op, Val* out) {
+  if (k == 0) { out[0] = tt[0]; return; }
+  const unsigned half = 1u << (k - 1);
+  Val pl[NA], ph[NA]; projectRef(tt, k - 1, removed, op, pl); projectRef(tt + half, k - 1, removed, op, ph);
+  bool dep = false; for (unsigned i = 0; i < half; ++i) dep = dep | (tt[i] != tt[half + i]);
+  const bool rm = (removed >> (k - 1)) & 1;
+  for (unsigned i = 0; i < half; ++i) {
+    Val comb = op(pl[i], ph[i]);
+    out[i] = !dep ? pl[i] : rm ? comb : pl[i];
+    out[half + i] = !dep ? pl[i] : rm ? comb : ph[i];
+  }
+}
 }
